@@ -1,11 +1,35 @@
+import OdmlModel.Model.Valid
+import Driver.ValidCodec
 import Driver.Util
 import Driver.Loop
 open Lean Drv
 
 namespace DrvC08
+open Valid DrvValid
 
-/-- Stub: replaced when the model of C08 is built. -/
-def handle (_j : Json) : Except String Json := throw "model of C08 not built"
+def handle (j : Json) : Except String Json := do
+  let op ← getStr j "op"
+  match op with
+  | "validate" =>
+    let n ← decNode (← getStr j "kind") (← getVal j "node")
+    pure (encResult (validate n))
+  | "blocks_save" =>
+    let d ← decDoc (← getVal j "node")
+    pure (jbool (blocksSave d))
+  | "getok" =>
+    let d := (← getStr j "dtype").toList
+    let v ← decVal (← getVal j "v")
+    if isTupleDtype d then throw "getok on tuple dtype" else pure (jbool (getOk d v))
+  | "strclass" => pure (encClass (strClass (← getStr j "s").toList))
+  | "int" => pure (match pyIntParse (← getStr j "s").toList with
+                   | some i => jint i
+                   | none => Json.null)
+  | "float" => pure (encFParse (pyFloatParse (← getStr j "s").toList))
+  | "infer" => pure (jchars (inferDtype (← decVal (← getVal j "v"))))
+  | "registry" =>
+    pure (jobj ([Klass.odML, Klass.section, Klass.property].map fun k =>
+      (k.name, jarr ((defaultReg k).map fun r => jstr r.name))))
+  | _ => throw s!"unknown op {op}"
 
 end DrvC08
 
